@@ -102,7 +102,8 @@ def _evaluate(case):
                     continue
                 if walker._names(tail._meta) != walker._names(q._meta):
                     viols.append({"kind": f"final_schema:{kind}", "detail": f"cut at {k}: {walker._names(tail._meta)} != {walker._names(q._meta)}"})
-                if typ.defined and htyp.defined:
+                psens_later = any(("psens" in O.OPS[o].tags) or O.OPS[o].name in ("head3", "tail3", "loc_slice") for o in ops[k:])
+                if typ.defined and htyp.defined and not (kind == "delayed_nodiv" and psens_later):
                     r = compare(base, res, ordered=typ.ordered, labelled=typ.labelled)
                     if r:
                         viols.append({"kind": f"final_result:{kind}:{r.split(' ')[0]}", "detail": f"cut after {ops[:k]} ({kind}) then {ops[k:]}: {r}"})
